@@ -586,7 +586,7 @@ def tasks(tier):
     ts.append(('contracts.c16', 'index_memoize_delegates', ()))
     ts.append(('contracts.c16', 'stampede_contract', ()))
     from contracts import c03
-    ts += c03.dependency_tasks('C16', ['get', 'set'])        # the wrappers are verified against get / set
+    ts += c03.dependency_tasks('C16', ['get', 'set'], tier=tier)        # the wrappers are verified against get / set
     return ts
 
 
